@@ -170,30 +170,32 @@ type handle struct {
 // the monitor's own book of accepted requests whose final frame has not arrived, per stream id in order of
 // acceptance. The code under study never lets a second one in (C09); if it does, the responses that follow on that
 // id answer the OLDEST of them first - that is the request the peer saw first.
-type shadowBook map[int][]*handle
-
-func (b shadowBook) count() int {
-	n := 0
-	for _, l := range b {
-		n += len(l)
-	}
-	return n
+type shadowBook struct {
+	byId map[int][]*handle
+	n    int
 }
 
-func (b shadowBook) oldest(id int) *handle {
-	if l := b[id]; len(l) > 0 {
+func (b *shadowBook) count() int { return b.n }
+
+func (b *shadowBook) oldest(id int) *handle {
+	if l := b.byId[id]; len(l) > 0 {
 		return l[0]
 	}
 	return nil
 }
 
-func (b shadowBook) add(id int, h *handle) { b[id] = append(b[id], h) }
+func (b *shadowBook) add(id int, h *handle) {
+	b.byId[id] = append(b.byId[id], h)
+	b.n++
+}
 
-func (b shadowBook) answer(id int) {
-	if l := b[id]; len(l) > 1 {
-		b[id] = l[1:]
-	} else {
-		delete(b, id)
+func (b *shadowBook) answer(id int) {
+	if l := b.byId[id]; len(l) > 1 {
+		b.byId[id] = l[1:]
+		b.n--
+	} else if len(l) == 1 {
+		delete(b.byId, id)
+		b.n--
 	}
 }
 
@@ -243,7 +245,7 @@ func runCaseOnce(c Case, verbose bool) (res Result) {
 		h = client.VerifNewHandler(c.N, c.P, timeout)
 	}
 	var handles []*handle
-	shadow := shadowBook{} // monitor: accepted requests whose final frame has not arrived
+	shadow := &shadowBook{byId: map[int][]*handle{}} // monitor: accepted requests whose final frame has not arrived
 	closedSeen := false
 	step := -1
 	curCls := ""
@@ -344,9 +346,16 @@ func runCaseOnce(c Case, verbose bool) (res Result) {
 				if kind == "receiver-blocked" {
 					// the receive loop is ONE goroutine: every frame that the peer sends after this one waits behind it
 					stalledAt := step
+					answeredLater := map[int]bool{} // ids whose final frame is among the frames already reported
 					for j := stalledAt + 1; j < len(ops); j++ {
 						if k := ops[j][0]; k == 'D' || k == 'L' {
 							id, _ := strconv.Atoi(ops[j][1:])
+							if answeredLater[id] {
+								continue
+							}
+							if k == 'L' {
+								answeredLater[id] = true
+							}
 							if t := shadow.oldest(id); t != nil && !client.VerifStateOf(t.r).Done {
 								step = j
 								viol("delivery-failed", "response frame for id %d (step %d, %s) is never delivered to live request #%d: the receive loop is blocked in step %d (%s)%s",
@@ -660,7 +669,7 @@ func runCaseOnce(c Case, verbose bool) (res Result) {
 		if timing {
 			judgeTimeouts()
 			stepEnd := time.Now()
-			for _, l := range shadow {
+			for _, l := range shadow.byId {
 				for _, hd := range l {
 					if hd.armStep >= 0 && hd.armStep < step {
 						checkSchedule(hd, step, firstRead, stepEnd)
@@ -746,7 +755,7 @@ func runCaseOnce(c Case, verbose bool) (res Result) {
 	if timing {
 		judgeTimeouts()
 		dumpEnd := time.Now()
-		for _, l := range shadow {
+		for _, l := range shadow.byId {
 			for _, hd := range l {
 				if hd.armStep >= 0 {
 					checkSchedule(hd, step, dumpBegin, dumpEnd)
@@ -954,6 +963,217 @@ func timingHistories(rng *rand.Rand, quick bool) [][]string {
 	return hs
 }
 
+// ---- id reuse while the earlier request is done but unanswered (C09 last clause, C10 "id reuse racing with a late page")
+//
+// Request A is sent with a caller-chosen id k (or gets k from the pool), then fails WITHOUT its final frame: its
+// maxPending+1-th waiting page closes it (overflow), or - in the timing variant - the read timeout does. A stays
+// registered under k, so sending B with the same explicit id k must be refused; the late frames for k that follow
+// belong to A (they are refused: request closed) and the final one frees k.
+
+// overflowPrefix: send A, then p+1 pages nobody reads
+func overflowPrefix(sendA string, k, p int) []string {
+	ops := []string{sendA}
+	for i := 0; i <= p; i++ {
+		ops = append(ops, "D"+strconv.Itoa(k))
+	}
+	return ops
+}
+
+func reuseDirected(conn bool) []Case {
+	var cases []Case
+	send := "X"
+	if conn {
+		send = "S"
+	}
+	g := "reuse-overflow"
+	if conn {
+		g += "-conn"
+	}
+	for _, n := range []int{2, 3} {
+		for _, p := range []int{1, 2} {
+			for _, variant := range []string{"explicit-in", "explicit-out", "managed"} {
+				k := 1
+				sendA := send + "1"
+				switch variant {
+				case "explicit-out":
+					k = n + 4
+					sendA = send + strconv.Itoa(k)
+				case "managed":
+					sendA = "M"
+					if conn {
+						sendA = "S0"
+					}
+				}
+				ks := strconv.Itoa(k)
+				B := send + ks
+				tails := [][]string{
+					{B, "L" + ks, "L" + ks},                               // B, the late final frame of A, B's own answer
+					{B, "D" + ks, "L" + ks, B, "L" + ks},                  // a late page, then the late final frame, then k is free
+					{B, B, "L" + ks, B, "D" + ks, "L" + ks},               // refused twice, free after A's answer, B answered in two frames
+					{"M", B, "L" + ks, "M", B, "L" + ks, "L2"},            // other traffic in between
+					{B, "R" + ks, "L" + ks, "R" + ks, "R" + ks, "L" + ks}, // with a reader on whatever is registered under k
+				}
+				if conn {
+					tails = append(tails, []string{B, "W", "L" + ks, "W", B, "L" + ks, "W"})
+				}
+				for _, t := range tails {
+					var ops []string
+					for _, o := range append(overflowPrefix(sendA, k, p), t...) {
+						if conn && o == "M" {
+							o = "S0"
+						}
+						ops = append(ops, o)
+					}
+					cases = append(cases, Case{Group: g, Conn: conn, Level: 1, N: n, P: p, T: bigT, Ops: ops})
+				}
+			}
+		}
+	}
+	return cases
+}
+
+// the same with the read timeout instead of overflow (real time: timeout 10 units of 50 ms; generator rule of the
+// timing family: every observation at most 0.3 or at least 3 timeouts after a timer was armed)
+func reuseTiming() []Case {
+	hs := [][]string{
+		{"X7", "T30", "X7", "L7", "L7"},
+		{"X7", "T30", "X7", "D7", "L7", "X7", "T1", "L7"},
+		{"X1", "T30", "X1", "M", "L1", "L2", "L1"},
+		{"M", "T30", "X1", "L1", "L1", "M"},
+		{"M", "D1", "T30", "X1", "D1", "R1", "L1", "X1", "L1"},
+		{"X2", "X3", "T30", "X3", "X2", "L2", "L3", "T1", "L2", "L3"},
+	}
+	var cases []Case
+	for _, ops := range hs {
+		cases = append(cases, Case{Group: "reuse-timeout", Level: 1, N: 3, P: 2, T: 10, UnitMs: 50, Ops: ops})
+	}
+	for _, ops := range [][]string{{"S7", "T30", "S7", "L7", "L7"}, {"S0", "T30", "S1", "W", "D1", "L1", "S1", "L1"}} {
+		cases = append(cases, Case{Group: "reuse-timeout-conn", Conn: true, Level: 1, N: 3, P: 2, T: 10, UnitMs: 50, Ops: ops})
+	}
+	return cases
+}
+
+// random histories biased towards explicit ids inside [1,N], small maxPending (overflow is frequent) and few final frames
+func reuseRandom(rng *rand.Rand, n, length int, conn bool) []string {
+	var ops []string
+	send := "X"
+	if conn {
+		send = "S"
+	}
+	id := func() string { return strconv.Itoa(1 + rng.Intn(n+1)) } // n+1: one id outside the managed range
+	for len(ops) < length {
+		switch x := rng.Intn(100); {
+		case x < 28:
+			ops = append(ops, send+id())
+		case x < 36:
+			if conn {
+				ops = append(ops, "S0")
+			} else {
+				ops = append(ops, "M")
+			}
+		case x < 70:
+			ops = append(ops, "D"+id())
+		case x < 86:
+			ops = append(ops, "L"+id())
+		case x < 96:
+			if conn {
+				ops = append(ops, []string{"W", "E"}[rng.Intn(2)])
+			} else {
+				ops = append(ops, "R"+id())
+			}
+		case x < 97:
+			ops = append(ops, "C")
+		default:
+			ops = append(ops, "L"+id())
+		}
+	}
+	return ops
+}
+
+// ---- more server-pushed events than the events queue holds (capacity maxInFlight) while nobody drains it,
+// interleaved with responses (C10: the events beyond the capacity are dropped, the responses behind them arrive)
+func floodCases() []Case {
+	var cases []Case
+	rep := func(o string, n int) []string {
+		var r []string
+		for i := 0; i < n; i++ {
+			r = append(r, o)
+		}
+		return r
+	}
+	cat := func(ls ...[]string) []string {
+		var r []string
+		for _, l := range ls {
+			r = append(r, l...)
+		}
+		return r
+	}
+	for _, n := range []int{1, 2, 3} {
+		var answers, sends []string
+		for k := 1; k <= n; k++ {
+			sends = append(sends, "S0")
+			answers = append(answers, "L"+strconv.Itoa(k))
+		}
+		cases = append(cases,
+			Case{Group: "flood-conn", Conn: true, Level: 1, N: n, P: 2, T: bigT, Ops: cat(sends, rep("E", n+1), answers, []string{"S0", "L1"})},
+			Case{Group: "flood-conn", Conn: true, Level: 1, N: n, P: 2, T: bigT, Ops: cat(sends, rep("E", n), []string{"D1"}, rep("E", 2), answers, rep("E", 1), sends, answers)},
+			Case{Group: "flood-conn", Conn: true, Level: 1, N: n, P: 2, T: bigT, Ops: cat(rep("E", n+2), sends, rep("W", n), answers)})
+	}
+	return cases
+}
+
+// ---- a multi-page response whose pages arrive at intervals well below the read timeout while the whole response
+// takes well over two timeouts (C16: "not earlier while pages of its response keep arriving"). Real time: timeout
+// T = 10 units of 50 ms; a page every 2 or 3 units (at most 0.3 T after the timer was restarted, the rule of the
+// timing family), each read at once so that maxPending is never reached.
+func pagedSlowCases(quick bool) []Case {
+	page := func(gap int, k string) []string { return []string{"T" + strconv.Itoa(gap), "D" + k, "R" + k} }
+	rep := func(n int, l []string) []string {
+		var r []string
+		for i := 0; i < n; i++ {
+			r = append(r, l...)
+		}
+		return r
+	}
+	cat := func(ls ...[]string) []string {
+		var r []string
+		for _, l := range ls {
+			r = append(r, l...)
+		}
+		return r
+	}
+	hs := []struct {
+		conn bool
+		ops  []string
+	}{
+		{false, cat([]string{"M"}, rep(4, page(3, "1")), []string{"T3", "L1", "R1"})},                                            // 15 units: the shortest response longer than one timeout
+		{false, cat([]string{"M"}, rep(8, page(3, "1")), []string{"T3", "L1", "R1", "R1", "M"})},                                 // 27 units: 2.7 timeouts, completed
+		{false, cat([]string{"M"}, rep(12, page(2, "1")), []string{"T2", "L1", "R1"})},                                           // 26 units, a page every 0.2 timeouts
+		{false, cat([]string{"X7"}, rep(8, page(3, "7")), []string{"T30", "R7", "X7", "L7"})},                                    // kept alive for 2.4 timeouts, then silence: times out
+		{false, cat([]string{"M", "M"}, rep(8, []string{"T2", "D1", "R1", "T1", "D2", "R2"}), []string{"T2", "L1", "T1", "L2"})}, // two responses interleaved
+		{true, cat([]string{"S0", "W"}, rep(8, page(3, "1")), []string{"T3", "L1", "R1", "S0"})},                                 // through processIncomingFrame
+	}
+	if !quick {
+		hs = append(hs, struct {
+			conn bool
+			ops  []string
+		}{false, cat([]string{"M"}, rep(20, page(3, "1")), []string{"T3", "L1", "R1"})}, // 6.3 timeouts
+			struct {
+				conn bool
+				ops  []string
+			}{false, cat([]string{"M", "X9"}, rep(10, []string{"T1", "D1", "R1", "T2", "D9", "R9"}), []string{"T30", "R1", "R9", "L1", "L9"})})
+	}
+	var cases []Case
+	for _, h := range hs {
+		g := "timing-paged"
+		if h.conn {
+			g += "-conn"
+		}
+		cases = append(cases, Case{Group: g, Conn: h.conn, Level: 1, N: 3, P: 2, T: 10, UnitMs: 50, Ops: h.ops})
+	}
+	return cases
+}
+
 func genHist(tier string) []Case {
 	quick := tier != "thorough"
 	rng := rand.New(rand.NewSource(hlib.Seed()))
@@ -1026,12 +1246,74 @@ func genHist(tier string) []Case {
 	for _, ops := range timingHistories(rng, quick) {
 		add(Case{Group: "timing", Level: 1, N: 3, P: 2, T: 10, UnitMs: 50, Ops: ops})
 	}
+	// ---- families added after the seeded changes C10-a, C10-b, C16-a
+	// id reuse while the earlier request is done but unanswered: directed, every continuation to a depth, random, timing
+	for _, c := range reuseDirected(false) {
+		add(c)
+	}
+	for _, c := range reuseDirected(true) {
+		add(c)
+	}
+	depth := 3
+	if !quick {
+		depth = 4
+	}
+	for _, pre := range []struct {
+		name string
+		n, p int
+		ops  []string
+	}{{"X", 2, 1, overflowPrefix("X1", 1, 1)}, {"M", 2, 1, overflowPrefix("M", 1, 1)}, {"X-P2", 3, 2, overflowPrefix("X2", 2, 2)}} {
+		if quick && pre.name == "X-P2" {
+			depth = 2
+		}
+		k := pre.ops[1][1:]
+		alpha := []string{"X" + k, "M", "D" + k, "L" + k, "R" + k, "X3", "L3", "C"}
+		g := fmt.Sprintf("exh-reuse-%s-d%d", pre.name, depth)
+		exhaustive(alpha, depth, func(ops []string) {
+			add(Case{Group: g, Level: 1, N: pre.n, P: pre.p, T: bigT, Ops: append(append([]string(nil), pre.ops...), ops...)})
+		})
+	}
+	nrand := 30
+	if !quick {
+		nrand = 300
+	}
+	for i := 0; i < nrand; i++ {
+		n := 2 + i%3
+		conn := i%5 == 4
+		add(Case{Group: fmt.Sprintf("rand-reuse-N%d", n), Conn: conn, Level: 1, N: n, P: 1 + i%2, T: bigT, Ops: reuseRandom(rng, n, 50+10*(i%4), conn)})
+	}
+	for _, c := range reuseTiming() {
+		add(c)
+	}
+	for _, c := range floodCases() {
+		add(c)
+	}
+	for _, c := range pagedSlowCases(quick) {
+		add(c)
+	}
 	return cases
 }
 
-func runAll(cases []Case) {
-	// timing cases sleep: run them concurrently; everything else sequentially (deterministic, fast)
-	results := make([]Result, len(cases))
+func runAll(cases []Case, tier string) {
+	// timing cases sleep: run them concurrently; everything else sequentially (deterministic, fast).
+	// Directed families run first (their case numbers do not change): if the library hangs, the watchdog gives up
+	// after maxStalls stalled histories, and the ones it has seen by then should be the telling ones.
+	results := make([]*Result, len(cases))
+	prog.mu.Lock()
+	prog.total = len(cases)
+	prog.mu.Unlock()
+	// generous: the quick run takes 5-25 s, up to a minute on a machine loaded three times over; the check itself gives
+	// the harness 30 minutes, and this deadline has to report before that one kills
+	limit := 12 * time.Minute
+	if tier == "thorough" {
+		limit = 28 * time.Minute
+	}
+	processDeadline(limit)
+	finish := func(i int, r Result) {
+		results[i] = &r
+		prog.end(&cases[i], &r)
+	}
+	gaveUp := func() bool { return atomic.LoadInt32(&stalledHistories) >= maxStalls }
 	var wg sync.WaitGroup
 	sem := make(chan struct{}, 24)
 	for i, c := range cases {
@@ -1040,19 +1322,48 @@ func runAll(cases []Case) {
 			go func(i int, c Case) {
 				defer wg.Done()
 				sem <- struct{}{}
-				results[i] = runCase(c, false)
-				<-sem
+				defer func() { <-sem }()
+				if gaveUp() {
+					return
+				}
+				finish(i, runCase(c, false))
 			}(i, c)
 		}
 	}
-	for i, c := range cases {
-		if c.UnitMs == 0 {
-			results[i] = runCase(c, false)
+	order := make([]int, 0, len(cases))
+	for pass := 0; pass < 2; pass++ {
+		for i, c := range cases {
+			directed := strings.HasPrefix(c.Group, "flood-") || strings.HasPrefix(c.Group, "reuse-") || strings.HasPrefix(c.Group, "witness-")
+			if c.UnitMs == 0 && directed == (pass == 0) {
+				order = append(order, i)
+			}
 		}
 	}
+	for _, i := range order {
+		if gaveUp() {
+			break
+		}
+		finish(i, runCase(cases[i], false))
+	}
 	wg.Wait()
+	prog.mu.Lock()
+	if prog.emitted { // the process deadline is printing: leave it to that
+		prog.mu.Unlock()
+		select {}
+	}
+	prog.emitted = true
+	prog.mu.Unlock()
+	skipped := 0
 	for _, r := range results {
-		hlib.Emit(r)
+		if r == nil {
+			skipped++
+		} else {
+			hlib.Emit(*r)
+		}
+	}
+	if skipped > 0 {
+		hlib.Emit(abortRec{Kind: "aborted", Why: "stalled-histories", Skipped: skipped, Stalls: int(atomic.LoadInt32(&stalledHistories)),
+			What: fmt.Sprintf("a call into the library did not return in %d histories (each is reported with its step); the remaining %d histories were not run", atomic.LoadInt32(&stalledHistories), skipped)})
 	}
 }
 
@@ -1132,6 +1443,13 @@ func permCases(tier string) []Case {
 
 // ---------------------------------------------------------------------------------------------- main
 
+func subDeadline(tier string) time.Duration {
+	if tier == "thorough" {
+		return 28 * time.Minute
+	}
+	return 12 * time.Minute
+}
+
 func main() {
 	zerolog.SetGlobalLevel(zerolog.Disabled)
 	defer hlib.Flush()
@@ -1163,17 +1481,20 @@ func main() {
 			case "all":
 				keep = true
 			case "c09":
-				keep = (strings.HasPrefix(g, "exh-") && !isConn) || strings.HasPrefix(g, "rand-") || strings.HasPrefix(g, "fill-") || strings.HasPrefix(g, "part-") || g == "witness-F9" || g == "witness-F12-conn"
+				keep = (strings.HasPrefix(g, "exh-") && !isConn) || strings.HasPrefix(g, "rand-") || strings.HasPrefix(g, "fill-") || strings.HasPrefix(g, "part-") || g == "witness-F9" || g == "witness-F12-conn" ||
+					strings.HasPrefix(g, "reuse-")
 			case "c10":
-				keep = strings.HasPrefix(g, "perm-") || isConn || (strings.HasPrefix(g, "rand-") && c.Conn)
+				keep = strings.HasPrefix(g, "perm-") || isConn || (strings.HasPrefix(g, "rand-") && c.Conn) ||
+					strings.HasPrefix(g, "reuse-") || strings.HasPrefix(g, "exh-reuse-") || strings.HasPrefix(g, "rand-reuse-") || strings.HasPrefix(g, "timing-paged")
 			case "c16":
-				keep = g == "timing" || g == "witness-F11" || strings.HasPrefix(g, "exh-N2-P1") || g == "rand-N2" || g == "rand-N3"
+				keep = g == "timing" || g == "witness-F11" || strings.HasPrefix(g, "exh-N2-P1") || g == "rand-N2" || g == "rand-N3" ||
+					strings.HasPrefix(g, "timing-paged") || strings.HasPrefix(g, "reuse-timeout") || g == "flood-conn"
 			}
 			if keep {
 				sel = append(sel, c)
 			}
 		}
-		runAll(sel)
+		runAll(sel, tier)
 	case "one":
 		var c Case
 		if err := json.Unmarshal([]byte(os.Args[2]), &c); err != nil {
@@ -1182,8 +1503,10 @@ func main() {
 		}
 		hlib.Emit(runCase(c, true))
 	case "sock":
+		processDeadline(subDeadline(tier)) // every wait inside is bounded; this is the last resort
 		sockSessions(tier)
 	case "stress":
+		processDeadline(subDeadline(tier))
 		stress(tier)
 	default:
 		os.Exit(2)
